@@ -1,6 +1,7 @@
 """Native replay of engine-M counterexamples: a generated Rust program against /repo (stable toolchain)."""
 from __future__ import annotations
 
+import json
 import os
 import shutil
 import subprocess
@@ -196,6 +197,69 @@ AUTOSERIAL = r"""
 """
 
 
+CSRACCEPT = r"""
+    // C06 acceptance battery against the real parser (feature x509-parser)
+    use rcgen::{CertificateParams, CertificateSigningRequestParams, CustomExtension, ExtendedKeyUsagePurpose as E, KeyPair, KeyUsagePurpose as K, PublicKeyData};
+    fn unhex(s: &str) -> Vec<u8> { (0..s.len() / 2).map(|i| u8::from_str_radix(&s[2 * i..2 * i + 2], 16).unwrap()).collect() }
+    fn parse(der: &[u8]) -> Result<CertificateSigningRequestParams, rcgen::Error> { CertificateSigningRequestParams::from_der(&der.into()) }
+    fn contains(h: &[u8], n: &[u8]) -> bool { h.windows(n.len()).any(|w| w == n) }
+    let ca_key = KeyPair::generate().unwrap();
+    let mut ca_p = CertificateParams::new(vec![]).unwrap();
+    ca_p.is_ca = rcgen::IsCa::Ca(rcgen::BasicConstraints::Unconstrained);
+    let ca = ca_p.self_signed(&ca_key).unwrap();
+    let key = KeyPair::generate().unwrap();
+    let base = || { let mut p = CertificateParams::new(vec!["a.example".to_string(), "b.example".to_string()]).unwrap();
+        p.distinguished_name = DistinguishedName::new(); p.distinguished_name.push(DnType::CommonName, "replay");
+        p.distinguished_name.push(DnType::OrganizationName, "org"); p };
+    // (1) round trips: every single key usage / purpose and all of them together must be carried over, with subject, names and key
+    let all_ku = vec![K::DigitalSignature, K::ContentCommitment, K::KeyEncipherment, K::DataEncipherment, K::KeyAgreement, K::KeyCertSign, K::CrlSign, K::EncipherOnly, K::DecipherOnly];
+    let all_eku = vec![E::Any, E::ServerAuth, E::ClientAuth, E::CodeSigning, E::EmailProtection, E::TimeStamping, E::OcspSigning];
+    let mut cases: Vec<(Vec<K>, Vec<E>)> = vec![(vec![], vec![]), (all_ku.clone(), all_eku.clone())];
+    for k in &all_ku { cases.push((vec![k.clone()], vec![])); }
+    for e in &all_eku { cases.push((vec![], vec![e.clone()])); }
+    for (ku, eku) in cases {
+        let mut p = base(); p.key_usages = ku.clone(); p.extended_key_usages = eku.clone();
+        p.subject_alt_names.push(rcgen::SanType::IpAddress("10.1.2.3".parse().unwrap()));
+        p.subject_alt_names.push(rcgen::SanType::Rfc822Name("m@a.example".try_into().unwrap()));
+        let der = p.serialize_request(&key).unwrap().der().to_vec();
+        let got = parse(&der).expect("a request generated by rcgen is refused");
+        assert_eq!(got.params.distinguished_name, p.distinguished_name, "subject not carried over");
+        assert_eq!(got.params.subject_alt_names, p.subject_alt_names, "subject alternative names not carried over");
+        let (mut a, mut b) = (format!("{:?}", ku).split(", ").map(String::from).collect::<Vec<_>>(), format!("{:?}", got.params.key_usages).split(", ").map(String::from).collect::<Vec<_>>());
+        a.sort(); b.sort();
+        assert_eq!(ku.len(), got.params.key_usages.len(), "key usages not carried over: {:?} vs {:?}", ku, got.params.key_usages);
+        for k in &ku { assert!(got.params.key_usages.contains(k), "key usage {:?} not carried over (got {:?})", k, got.params.key_usages); }
+        assert_eq!(eku.len(), got.params.extended_key_usages.len(), "extended key usages not carried over: {:?} vs {:?}", eku, got.params.extended_key_usages);
+        for e in &eku { assert!(got.params.extended_key_usages.contains(e), "purpose {:?} not carried over (got {:?})", e, got.params.extended_key_usages); }
+        assert_eq!(got.public_key.der_bytes(), key.public_key_raw(), "embedded key bits not carried over");
+        let cert = got.signed_by(&ca, &ca_key).unwrap();
+        assert!(contains(cert.der(), &key.public_key_der()), "issued certificate does not embed the request's SubjectPublicKeyInfo");
+        // (2) every modification of the signed bytes or of the signature must be refused
+        let hdr = if der[1] < 0x80 { 2 } else { 2 + (der[1] & 0x7f) as usize };
+        let info_len = if der[hdr + 1] < 0x80 { 2 + der[hdr + 1] as usize } else { let n = (der[hdr + 1] & 0x7f) as usize; 2 + n + der[hdr + 2..hdr + 2 + n].iter().fold(0usize, |a, b| a * 256 + *b as usize) };
+        for pos in (hdr..hdr + info_len).chain(der.len() - 8..der.len()) {
+            let mut d = der.clone(); d[pos] ^= 0x01;
+            assert!(parse(&d).is_err(), "a request modified at byte {} (of {}) is accepted", pos, der.len());
+        }
+    }
+    // (3) a key whose type the signature algorithm does not determine: P-384 key, ecdsa-with-SHA256 (request generated by OpenSSL)
+    let csr384 = unhex("3082010e30819502010030163114301206035504030c0b70333834207368613235363076301006072a8648ce3d020106052b8104002203620004cf9a3fbfd324d5556fae8677b029e75dd869da701c241b25ea96e98ea609b991422f64c5514b25d1f02d157e1c543a4fbc29ffb05d0fc87e09bc3c5ae661a4b24b3ab98f7f0818f2473f76e2d94c7dcece0bc34df1b5a5215b65bcb51952945ba000300a06082a8648ce3d0403020368003065023100c73ab5aa04099af9c28cd871caa900508223b34b47dd11ce6811d23d6be67ae5b5081446915a092bc45308dd5d5ee5f802307e08932b2c865190234052ae9a1ff8e091d18c3fe99ef21aac697bed4c0ea1deec0af55cf237ce82560e5466281e4ab6");
+    let spki384 = unhex("3076301006072a8648ce3d020106052b8104002203620004cf9a3fbfd324d5556fae8677b029e75dd869da701c241b25ea96e98ea609b991422f64c5514b25d1f02d157e1c543a4fbc29ffb05d0fc87e09bc3c5ae661a4b24b3ab98f7f0818f2473f76e2d94c7dcece0bc34df1b5a5215b65bcb51952945b");
+    if let Ok(got) = parse(&csr384) {
+        let cert = got.signed_by(&ca, &ca_key).unwrap();
+        assert!(contains(cert.der(), &spki384), "P-384 key signed with SHA-256: the issued certificate's SubjectPublicKeyInfo differs from the request's");
+    }
+    // (4) anything rcgen cannot carry over is refused
+    let mut p = base(); p.custom_extensions = vec![CustomExtension::from_oid_content(&[1, 2, 3, 4, 5], vec![5, 0])];
+    if let Ok(r) = p.serialize_request(&key) { assert!(parse(r.der()).is_err(), "a request with an unknown extension is accepted"); }
+    let mut p = base(); p.extended_key_usages = vec![E::ServerAuth, E::Other(vec![1, 2, 3, 4, 5])];
+    if let Ok(r) = p.serialize_request(&key) { assert!(parse(r.der()).is_err(), "a request with a non-standard extended key usage purpose is accepted"); }
+    // (5) a general name rcgen cannot represent (registeredID; request generated by OpenSSL) must refuse the whole request
+    let csr_rid = unhex("3081f430819c020100300e310c300a06035504030c037269643059301306072a8648ce3d020106082a8648ce3d030107034200042db3087cd623fb841728d86714a060866404cae1c386e4d85609835379190f3d0139c9f182590ad4c04aaa2cd16033ede44ac339a43abbd14c5389fc56936dd9a02c302a06092a864886f70d01090e311d301b30190603551d11041230108209612e6578616d706c6588032a0304300a06082a8648ce3d040302034700304402202caa9e8cc5c511b0a487a50a92ed52a9153804942faf841982902dcf846f86e602204dffcf91c92485977f34b41d995909bd88e3c580466ea2f6da9d66f2277d1449");
+    assert!(parse(&csr_rid).is_err(), "a request with a registeredID alternative name is accepted (the name is silently dropped)");
+"""
+
+
 def program(cex: dict) -> str:
     op = cex.get("op")
     pre = ", ".join(f"({t}, {v})" for (t, v) in cex.get("pre", []))
@@ -255,6 +319,8 @@ def program(cex: dict) -> str:
         body = EXTS
     if op == "auto-serial":
         body = AUTOSERIAL
+    if op == "csr-accept":
+        body = CSRACCEPT
     return PRELUDE + "fn main() {\n" + body + "    println!(\"replay-ok\");\n}\n"
 
 
@@ -267,7 +333,7 @@ def replay(doc: dict) -> bool:
         (scratch / "src").mkdir()
         (scratch / "Cargo.toml").write_text(
             '[package]\nname = "mreplay"\nversion = "0.0.0"\nedition = "2021"\n[workspace]\n[dependencies]\n'
-            f'rcgen = {{ path = "{REPO}/rcgen" }}\ntime = {{ version = "0.3.6", default-features = false }}\nring = "0.17"\n')
+            f'rcgen = {{ path = "{REPO}/rcgen", features = {json.dumps(cex.get("features", []))} }}\ntime = {{ version = "0.3.6", default-features = false }}\nring = "0.17"\n')
         shutil.copy(REPO / "Cargo.lock", scratch / "Cargo.lock")
         (scratch / "src" / "main.rs").write_text(src)
         env = dict(os.environ)
